@@ -335,6 +335,7 @@ class TenSym(PySym):
         self.generic_eq = parent.generic_eq if parent is not None else False    # symbolic scalars compare equal iff they are the same expression
         self.sampling = parent.sampling if parent is not None else False
         self.moderate = parent.moderate if parent is not None else False      # order comparisons of symbolic scalars are decided for moderate values wherever they occur (not only in `if` tests)
+        self.parent_ev = parent
         self.module_env = parent.module_env if parent is not None else {}      # names of the analysed module (imports, constants): visible in every function evaluated below
 
     # ------------------------------------------------------------------ helpers
@@ -1393,6 +1394,11 @@ class TenSym(PySym):
             return self.models[cn](self, n)
         if cn in self.funcs:
             return self.inline(self.funcs[cn], n)
+        if isinstance(n.func, ast.Name) and cn.startswith("_") and cn not in self.env:
+            # a private helper of the module the analysed function lives in (a block that a refactoring moved out): evaluated from its source
+            hf_ = self.same_module_function(cn)
+            if hf_ is not None:
+                return self.inline(hf_, n)
         A = lambda i: self.ex(n.args[i])      # noqa: E731
         if cn in ("np.array", "np.asarray", "np.ascontiguousarray", "np.asfortranarray"):
             v = A(0)
@@ -2064,9 +2070,24 @@ class TenSym(PySym):
         sub.run(fn.body)
         return sub.returned
 
+    def same_module_function(self, name):
+        from .pyfront import MODULE_OF
+        ev = self
+        while ev is not None:
+            fn_ = getattr(ev, "current_fn", None)
+            if fn_ is not None:
+                mod_ = MODULE_OF.get(id(fn_))
+                if mod_ is not None:
+                    f_ = mod_.functions.get(name)
+                    if f_ is not None and f_ is not fn_:
+                        return f_
+            ev = getattr(ev, "parent_ev", None)
+        return None
+
     def run_fn(_ev, fn, **given):
         """evaluate fn's body with `given` parameters; the others take their default values"""
         self = _ev
+        self.current_fn = fn
         a = fn.args
         names = [p.arg for p in a.posonlyargs + a.args]
         defaults = dict(zip(names[len(names) - len(a.defaults):], a.defaults))
